@@ -249,7 +249,7 @@ def examine(case: dict, ctx) -> Outcome:
             out.bad(f"equation-value-differs:{root}:{pchanged}", var=v, got=g, want=w, eq=str(eq)[:200])
             return out
     # Jacobian (floor division is not differentiable: nothing to compare)
-    nonsmooth = any(h["fn"]["name"] in ("floordiv2", "mod_half") for _, _, p in spec["decls"] for h in ([p] if "fn" in p else []) + [c for c in (p.get("stoich") or {}).values() if isinstance(c, dict)] + ([p["ia"]] if "ia" in p else []))
+    nonsmooth = any(h["fn"]["name"] in ("floordiv2", "mod_half", "neg_mod") for _, _, p in spec["decls"] for h in ([p] if "fn" in p else []) + [c for c in (p.get("stoich") or {}).values() if isinstance(c, dict)] + ([p["ia"]] if "ia" in p else []))
     if nonsmooth:
         out.classes.append("nonsmooth-jacobian-skipped")
         return out
